@@ -342,8 +342,14 @@ func obsFor(id string) ObsSpec {
 		o.Log = o.Log || p.Obs.Log
 		o.CatFile = o.CatFile || p.Obs.CatFile
 		o.Hash = o.Hash || p.Obs.Hash
-		if p.Obs.LogKs != nil {
-			o.LogKs = p.Obs.LogKs
+		for _, k := range p.Obs.LogKs { // union of the profiles' -n values
+			have := false
+			for _, x := range o.LogKs {
+				have = have || x == k
+			}
+			if !have {
+				o.LogKs = append(o.LogKs, k)
+			}
 		}
 	}
 	return o
